@@ -133,26 +133,42 @@ def case_term(line):
         steps.append("(%s, %s)" % (fuse, op(toks)))
     return cid, "trace_case %s %s" % (cfg, lst(steps))
 
-def crosscheck(lines, model_traces, workdir, tag):
-    """Evaluate the given case lines inside Coq and compare with the extracted model's trace lines.
+def crosscheck(lines, model_traces, workdir, tag, spec_traces=None):
+    """Evaluate the given case lines inside Coq and compare with the extracted model's trace lines - and, when
+    [spec_traces] is given, the list specification's predictions (Track.track_case) with the extracted ones.
     -> (number of cases compared, list of (case id, step, coq line, extracted line))"""
     os.makedirs(workdir, exist_ok=True)
     vf = os.path.join(workdir, "cc_%s.v" % tag)
     ids = []
     with open(vf, "w") as f:
         f.write("From Coq Require Import String List NArith.\nImport ListNotations.\nFrom AV.Model Require Import Base Bytes Vec Ops Interp Trace.\n"
+                + ("From AV.Proofs Require Import Track.\n" if spec_traces is not None else "") +
                 "Open Scope N_scope.\nSet Printing Width 10000000.\nSet Printing Depth 10000000.\n")
         for line in lines:
             cid, term = case_term(line)
             ids.append(cid)
             f.write("Eval vm_compute in (%s).\n" % term)
+            if spec_traces is not None:
+                f.write("Eval vm_compute in (%s).\n" % term.replace("trace_case", "track_case", 1))
     rc, out = core.sh("timeout 1200 coqc -noglob -Q %s/AV AV %s" % (core.COQ, vf), cwd=workdir)
     if rc != 0:
         raise core.ToolBroken("in-Coq re-evaluation of the case sample failed:\n" + out[-2000:])
     blocks = re.findall(r"= \[(.*?)\]\s*\n\s*: list string", out, re.S)
-    if len(blocks) != len(ids):
+    per = 2 if spec_traces is not None else 1
+    if len(blocks) != per * len(ids):
         raise core.ToolBroken("in-Coq re-evaluation: %d results for %d cases" % (len(blocks), len(ids)))
     bad = []
+    if spec_traces is not None:
+        for cid, blk in zip(ids, blocks[1::2]):
+            coq_lines = re.findall(r'"((?:[^"]|"")*)"', blk)
+            ext = [("-" if x is None else x["_raw"]) for x in spec_traces.get(cid, [])]
+            for i in range(max(len(coq_lines), len(ext))):
+                a = coq_lines[i] if i < len(coq_lines) else "<missing>"
+                e = ext[i] if i < len(ext) else "<missing>"
+                if a != e:
+                    bad.append((cid, i, "spec: " + a, "spec: " + e))
+                    break
+        blocks = blocks[0::2]
     for cid, blk in zip(ids, blocks):
         coq_lines = re.findall(r'"((?:[^"]|"")*)"', blk)
         ext = [l["_raw"].split(" ", 2)[2] for l in model_traces.get(cid, []) if "_raw" in l and l.get("_step") != "end"]
